@@ -18,9 +18,14 @@ IDENTITY_WRAPPERS = ("list", "tuple", "tqdm", "iter")
 
 def strip_identity_wrappers(t: Term) -> Term:
     """list(x), tuple(x), tqdm(x, desc=..) range over the same elements in the same order as x."""
-    while t[0] == "call" and (t[1] in IDENTITY_WRAPPERS or (isinstance(t[1], tuple) and t[1][0] == "global" and t[1][1] in IDENTITY_WRAPPERS)) and t[2]:
-        t = t[2][0]
-    return t
+    while True:
+        if t[0] == "call" and (t[1] in IDENTITY_WRAPPERS or (isinstance(t[1], tuple) and t[1][0] == "global" and t[1][1] in IDENTITY_WRAPPERS)) and t[2]:
+            t = t[2][0]
+        elif t[0] == "var" and len(t) == 4 and t[3][0] == "call" and (t[3][1] in IDENTITY_WRAPPERS) and t[3][2]:
+            # a local snapshot ``nodes = list(x)`` ranges over what x ranged over when it was taken
+            t = t[3]
+        else:
+            return t
 
 
 def is_call_of(t: Term, attr_name: str) -> bool:
@@ -108,14 +113,23 @@ def stores(events: List[Event], attr: Optional[str] = None) -> List[Event]:
     return [e for e in events if e.kind == "store" and (attr is None or e.term[2] == attr)]
 
 
-def lookup_param_ok(t: Optional[Term], param: str) -> bool:
-    """The lookup handed on is the function's own lookup parameter, or the empty dict that replaced a None."""
+def lookup_param_ok(t: Optional[Term], param: str, cond: Optional[Term] = None, ev=None) -> bool:
+    """The lookup handed on is the function's own lookup parameter, or the empty dict that replaced a None.
+    With a path condition the empty replacement may carry any local name, but only where the parameter is known to be None."""
     if t is None:
         return False
     if t == sym(param):
         return True
-    if t[0] == "var" and t[1] == param and t[3] in (("dict", ()), ("call", "dict", (), ())):
-        return True
+    if t[0] == "var" and t[3] in (("dict", ()), ("call", "dict", (), ())):
+        if t[1] == param:
+            return True
+        if cond is not None and ev is not None:
+            from ..sym import NONE, Unsupported, satisfiable, t_and, t_cmp, t_not
+            try:
+                return not satisfiable(t_and(cond, t_not(t_cmp("is", sym(param), NONE))), ev.enum_members)
+            except Unsupported:
+                return False
+        return False
     if t[0] == "ite":  # merged form: {} if param is None else param
         return lookup_param_ok(t[2], param) and lookup_param_ok(t[3], param)
     return False
@@ -154,3 +168,69 @@ def devar(t):
     if t[0] == "var" and len(t) == 4:
         return devar(t[3])
     return tuple(devar(x) if isinstance(x, tuple) else x for x in t)
+
+
+def lookup_or_same(ev, cond, value, key_ok, table_ok) -> bool:
+    """``value`` (under path condition ``cond``) is ``table.get(key, key)`` in one of its spellings: the ``get`` call, the conditional
+    expression ``table[key] if key in table else key``, or -- on a path that already decided membership -- ``table[key]`` resp. ``key``."""
+    from ..sym import satisfiable, t_and, t_not, Unsupported
+
+    def implies(a, b):
+        try:
+            return not satisfiable(t_and(a, t_not(b)), ev.enum_members)
+        except Unsupported:
+            return False
+    if value is None:
+        return False
+    while value[0] == "var" and value[3][0] not in ("list", "dict", "comp", "dictcomp", "set"):
+        value = value[3]
+    if is_call_of(value, "get") and table_ok(value[1][1]):
+        a, kw = call_args(value)
+        dflt = a[1] if len(a) > 1 else kw.get("default")
+        return len(a) >= 1 and key_ok(a[0]) and dflt == a[0]
+    if value[0] == "ite":
+        c, x, y = value[1], value[2], value[3]
+        if c[0] == "not":
+            c, x, y = c[1], y, x
+        return c[0] == "in" and key_ok(c[1]) and table_ok(c[2]) and x == ("sub", c[2], c[1]) and y == c[1]
+    if value[0] == "sub" and table_ok(value[1]) and key_ok(value[2]):
+        return implies(cond, ("in", value[2], value[1]))
+    if key_ok(value):
+        ins = [a for a in _atoms(cond) if a[0] == "in" and a[1] == value and table_ok(a[2])]
+        return any(implies(cond, t_not(a)) for a in ins)
+    return False
+
+
+def _atoms(t, acc=None):
+    acc = [] if acc is None else acc
+    if isinstance(t, tuple) and t:
+        if t[0] in ("and", "or"):
+            for x in t[1]:
+                _atoms(x, acc)
+        elif t[0] == "not":
+            _atoms(t[1], acc)
+        else:
+            acc.append(t)
+    return acc
+
+
+def returns_receiver(model: Model, ev, t: Term, recv: Term, depth: int = 0, cls: Optional[ClassInfo] = None) -> bool:
+    """``t`` is ``recv`` itself, or a call of a method on ``recv`` that returns its receiver on every path (fluent ``return self``)."""
+    if t == recv:
+        return True
+    if depth > 3 or not (t[0] == "call" and isinstance(t[1], tuple) and t[1][0] == "attr" and t[1][1] == recv):
+        return False
+    c = cls or ev.type_of(recv)
+    if c is None:
+        return False
+    fs = c.resolve_all(t[1][2])
+    if len(fs) != 1 or fs[0].kind != "method":
+        return False
+    f = fs[0]
+    try:
+        ps = PathEnumerator(Evaluator(model, inline_methods=False)).function_paths(f, self_cls=c)
+    except Exception:
+        return False
+    rets = [p for p in ps if p.exit != "raise"]
+    s = sym(f.self_name)
+    return bool(rets) and all(p.exit == "return" and p.value is not None and returns_receiver(model, ev, p.value, s, depth + 1, c) for p in rets)
